@@ -177,7 +177,7 @@ Lemma spec_out_of_range f s o :
 Proof.
   intros B. assert (UO : forall v x, (length (vars s) <= v)%nat -> upd v x (abs f s) = abs f s)
     by (intros v x L; apply upd_overflow; rewrite abs_length; exact L).
-  destruct o as [v n|v|d sv|d sv|d sv|v|a b|d sv|v c|v m|v|v]; cbn [op_vars forallb] in B;
+  destruct o as [v n|v|d sv|d sv|d sv|v|a b|d sv|v c|v m|v|v|v n|v n]; cbn [op_vars forallb] in B;
   rewrite ?andb_true_r in B; try (apply andb_false_iff in B); unfold spec_step, sset.
   - cbn [svars abs_state]. rewrite abs_length, B, andb_false_r. reflexivity.
   - apply Nat.ltb_ge in B. rewrite (sget_overflow f s v B). cbn. apply UO. exact B.
@@ -203,6 +203,8 @@ Proof.
   - apply Nat.ltb_ge in B. rewrite (sget_overflow f s v B). destruct f; reflexivity.
   - apply Nat.ltb_ge in B. rewrite (sget_overflow f s v B). destruct f; reflexivity.
   - apply Nat.ltb_ge in B. cbn. apply UO. exact B.
+  - apply Nat.ltb_ge in B. rewrite (sget_overflow f s v B). destruct f; reflexivity.
+  - apply Nat.ltb_ge in B. rewrite (sget_overflow f s v B). destruct f; reflexivity.
 Qed.
 
 (* ---- the refinement ------------------------------------------------------------------------------------------------ *)
@@ -271,19 +273,19 @@ Proof.
 Qed.
 
 Lemma abs_str_detach f s v r o g : Inv s -> is_ptr f = false -> (v < length (vars s))%nat -> getv s v = VLive r o ->
-  abs f (str_detach s v r g) = upd v (grow f (abs_var f s (VLive r o)) g) (abs f s).
+  abs f (str_detach s v r g) = upd v (smod (abs_var f s (VLive r o)) g) (abs f s).
 Proof.
   intros I NP Lv G. pose proof I as [W C]. pose proof (C _ _ _ G) as RO. subst o.
   unfold str_detach. destruct r as [|b].
-  - change (abs f (setv (fst (alloc s 1 (push 0 g) (Z.lor (slen (push 0 g)) 3))) v (both (HBlock (length (heap s))))) = upd v (grow f (snull f) g) (abs f s)).
+  - change (abs f (setv (fst (alloc s 1 (str_newval g 0) (Z.lor (str_need g 0) 3))) v (both (HBlock (length (heap s))))) = upd v (smod (snull f) g) (abs f s)).
     rewrite (abs_alloc_store f s v 1 _ _ I). rewrite NP. destruct f; try discriminate; reflexivity.
   - destruct (Inv_live s v b _ I G) as [[L F] R]. rewrite (touch_live _ _ F).
-    destruct ((rc (getb s b) =? 1) && (slen (push (val (getb s b)) g) <=? cap (getb s b))) eqn:E.
+    destruct ((rc (getb s b) =? 1) && (str_need g (val (getb s b)) <=? cap (getb s b))) eqn:E.
     + apply andb_true_iff in E. destruct E as [E _]. apply Z.eqb_eq in E.
       rewrite (abs_write_inplace f s v b _ _ I Lv G E). reflexivity.
-    + change (abs f (setv (release FStr (touch (fst (alloc s 1 (push (val (getb s b)) g) (Z.lor (slen (push (val (getb s b)) g)) 3))) b) (HBlock b)) v
-                          (both (HBlock (length (heap s))))) = upd v (grow f (abs_var f s (VLive (HBlock b) (HBlock b))) g) (abs f s)).
-      rewrite (abs_clone f FStr s v b _ _ _ I G). cbn [abs_var grow]. rewrite NP. reflexivity.
+    + change (abs f (setv (release FStr (touch (fst (alloc s 1 (str_newval g (val (getb s b))) (Z.lor (str_need g (val (getb s b))) 3))) b) (HBlock b)) v
+                          (both (HBlock (length (heap s))))) = upd v (smod (abs_var f s (VLive (HBlock b) (HBlock b))) g) (abs f s)).
+      rewrite (abs_clone f FStr s v b _ _ _ I G). cbn [abs_var smod]. rewrite NP. reflexivity.
 Qed.
 
 Lemma abs_var_detach f s v r o g : Inv s -> is_ptr f = false -> f <> FStr -> (v < length (vars s))%nat -> getv s v = VLive r o ->
@@ -343,7 +345,7 @@ Proof.
   intros I. pose proof I as [W C]. unfold step, step_gen. rewrite (wf_flt _ _ W).
   destruct (forallb (fun v => Nat.ltb v (length (vars s))) (op_vars o)) eqn:B; cbn [negb];
     [|symmetry; apply spec_out_of_range; exact B].
-  destruct o as [v n|v|d sv|d sv|d sv|v|a b|d sv|v c|v m|v|v]; cbn [op_vars forallb] in B;
+  destruct o as [v n|v|d sv|d sv|d sv|v|a b|d sv|v c|v m|v|v|v n|v n]; cbn [op_vars forallb] in B;
   rewrite ?andb_true_r, ?andb_true_iff, ?Nat.ltb_lt in B; unfold spec_step, sset; rewrite ?sget_abs, ?is_dead_abs; cbn [svars screated abs_state].
   - (* OCreate *)
     rewrite abs_length. apply Nat.ltb_lt in B. rewrite B, andb_true_r. apply Nat.ltb_lt in B.
@@ -448,18 +450,24 @@ Proof.
     + apply (abs_assign_val FXml s v r o c I eq_refl B G).
   - (* OWrite *)
     destruct f; try reflexivity; destruct (getv s v) as [|r o] eqn:G; try reflexivity; cbn [svars].
-    + apply (abs_str_detach FStr s v r o m I eq_refl B G).
+    + apply (abs_str_detach FStr s v r o (SPush m) I eq_refl B G).
     + apply (abs_var_detach FVar s v r o m I eq_refl ltac:(discriminate) B G).
     + apply (abs_var_detach FXml s v r o m I eq_refl ltac:(discriminate) B G).
   - (* ODetach *)
     destruct f; try reflexivity; destruct (getv s v) as [|r o] eqn:G; try reflexivity; cbn [svars].
-    + apply (abs_str_detach FStr s v r o 0 I eq_refl B G).
+    + apply (abs_str_detach FStr s v r o (SPush 0) I eq_refl B G).
     + apply (abs_var_detach FVar s v r o 0 I eq_refl ltac:(discriminate) B G).
     + apply (abs_var_detach FXml s v r o 0 I eq_refl ltac:(discriminate) B G).
   - (* ODestroy *)
     cbn [svars]. destruct (getv s v) as [|r o] eqn:G.
     + symmetry. apply upd_same_abs. rewrite G. reflexivity.
     + apply (abs_drop f f s v r VDead I). intros sk. reflexivity.
+  - (* OResize *)
+    destruct f; try reflexivity; destruct (getv s v) as [|r o] eqn:G; try reflexivity; cbn [svars].
+    apply (abs_str_detach FStr s v r o (STrunc n) I eq_refl B G).
+  - (* OReserve *)
+    destruct f; try reflexivity; destruct (getv s v) as [|r o] eqn:G; try reflexivity; cbn [svars].
+    apply (abs_str_detach FStr s v r o (SReserve n) I eq_refl B G).
 Qed.
 
 (* ---- whole histories (String, Variant, Xml::Variant: the value does not mention identities) ------------------- *)
@@ -542,7 +550,7 @@ Lemma ptr_step_created s o : Inv s ->
   screated (spec_step FPtr (abs_state FPtr s) o) = length (heap (step FPtr s o)).
 Proof.
   intros I. pose proof I as [W C].
-  destruct o as [v n| | | | | | | | | | | ];
+  destruct o as [v n| | | | | | | | | | | | | ];
     try (rewrite hl_step_ptr by discriminate; rewrite created_step_other by discriminate; reflexivity).
   unfold step, step_gen. rewrite (wf_flt _ _ W). cbn [op_vars forallb]. rewrite andb_true_r.
   unfold spec_step. rewrite sget_abs, is_dead_abs. cbn [svars abs_state]. rewrite abs_length.
